@@ -1,7 +1,9 @@
 """C04 — comprehension forms: strategy agreement, strategy guard, laziness, variable leaking, else placement."""
+CANON = True
+
 import ast
 
-from .. import compq, placement, pyq
+from .. import pm, compq, placement, pyq
 from ..pysrc import dotted, fold, norm, flat
 
 R, SC = compq.RM, compq.SC
@@ -64,7 +66,9 @@ def check(ctx, src):
     table = {k: str(v) for k, v in fold(nc.value.value).items()} if nc is not None and isinstance(nc.value, ast.Subscript) else {}
     ctx.check(table == {"for": "asty.For", "lfor": "asty.ListComp", "dfor": "asty.DictComp", "sfor": "asty.SetComp", "gfor": "asty.GeneratorExp"}, "COMP-ROOT", f"{R}|{FN}|node table", f"node table is {table}", R, f.lineno, detail=str(table))
     t = {norm(n.targets[0]): norm(n.value) for n in f.body if isinstance(n, ast.Assign)}
-    ctx.check(t.get("is_for") == "root == 'for'" and t.get("ctx") == "nullcontext() if is_for else compiler.scope.create(ScopeGen)" and t.get("mac_con") == "nullcontext() if is_for else compiler.local_state()",
+    B = pm.Binder()
+    ctx.check(B.find(f, "is_for = root == 'for'") is not None and B.find(f, "ctx = nullcontext() if is_for else compiler.scope.create(ScopeGen)") is not None
+              and B.find(f, "mac_con = nullcontext() if is_for else compiler.local_state()") is not None,
               "COMP-ROOT", f"{R}|{FN}|scopes", "only `for` may run without a ScopeGen and a local macro state", R, f.lineno, witness="(lfor x xs (setv y x)) leaks x / a defmacro inside lfor becomes module-wide", detail="ScopeGen + local_state unless for")
     w = f.body[-1]
     ctx.check(isinstance(w, ast.With) and [norm(i.context_expr) for i in w.items] == ["mac_con", "ctx"] and norm(w.items[1].optional_vars) == "scope", "COMP-ROOT", f"{R}|{FN}|with", "the whole compilation must run inside `with mac_con, ctx as scope`", R, f.lineno, detail="with mac_con, ctx as scope")
@@ -88,8 +92,8 @@ def check(ctx, src):
     rt = [n for n in pyq.walk_no_nested(fz) if isinstance(n, ast.Return)]
     ctx.check(len(rt) == 1 and norm(rt[0].value) == "sorted(res)", "COMP-LEAK", f"{SC}|ScopeGen.finalize|sorted", "leaked names must be returned sorted", SC, fz.lineno, detail="sorted(res)")
     ex = pyq.contains(f, lambda n: isinstance(n, ast.If) and norm(n.test) == "scope.exposing_assignments and assignment_names")
-    ut = pyq.contains(f, lambda n: isinstance(n, ast.Assign) and norm(n.targets[0]) == "unlocal_type")
-    ctx.check(ex is not None and ut is not None and norm(ut.value) == "asty.Nonlocal if is_inside_function_scope(scope.parent) else asty.Global", "COMP-LEAK", f"{R}|{FN}|expose",
+    ut = pm.find(f, "unlocal_type = asty.Nonlocal if is_inside_function_scope(scope.parent) else asty.Global")
+    ctx.check(ex is not None and ut is not None, "COMP-LEAK", f"{R}|{FN}|expose",
               "setx/setv targets leak out through nonlocal (inside a function) or global (module level), only when the scope exposes assignments", R, f.lineno, detail="Nonlocal if inside function else Global")
     en = comp.sc.func("ScopeGen.__enter__")
     ctx.require(en is not None, "ScopeGen.__enter__ not found")
